@@ -11,6 +11,7 @@ import (
 
 // ProgCase is one compile-and-render case shared by the implementation and the model.
 type ProgCase struct {
+	Debug      bool // TemplateSet.Debug for this run (not part of the request: rendering does not depend on it)
 	Src        string
 	FromFile   bool
 	Loaders    []map[string]string
@@ -180,6 +181,7 @@ func (c ProgCase) buildSet() (*pongo2.TemplateSet, []*memLoader) {
 		set.Options.TrimBlocks = c.Trim
 		set.Options.LStripBlocks = c.LStrip
 	}
+	set.Debug = c.Debug
 	for _, t := range c.BanTags {
 		set.BanTag(t)
 	}
@@ -382,6 +384,23 @@ func runProgCases(cfg Config, res *Result, cases []ProgCase, sigPrefix string, n
 		res.add(Finding{Kind: "disagree", Proj: proj, Sig: sigPrefix + "-" + proj, Case: c.String(), Impl: ic + " " + io.Msg, Model: model[i]})
 	}
 	runProgCasesAutoOff(cfg, res, cases, reqs, sigPrefix)
+	// another fourth once more in a set with Debug on: what is logged and cached changes, the
+	// outcome does not
+	var dbg []int
+	for i := range cases {
+		// (what the model does not answer for - random, now, lorem random - need not repeat itself)
+		if i%4 == 2 && modelCanon(model[i]) != "unsupported" && (progSkipModel == nil || !progSkipModel(cases[i])) {
+			dbg = append(dbg, i)
+		}
+	}
+	dimpl := make([]ImplOutcome, len(dbg))
+	parMap(len(dbg), func(k int) { c := cases[dbg[k]]; c.Debug = true; dimpl[k] = c.RunImpl() })
+	res.Cases += len(dbg)
+	for k, i := range dbg {
+		if a, b := dimpl[k].Canon(), impl[i].Canon(); a != b {
+			res.add(Finding{Kind: "oracle", Proj: "output", Sig: sigPrefix + "-debug-changes-outcome", Case: cases[i].String() + " in a set with Debug on", Impl: a + " " + dimpl[k].Msg, Model: b + " (Debug off)"})
+		}
+	}
 }
 
 // runProgCasesAutoOff runs a fourth of the cases once more under the other package default,
